@@ -436,6 +436,29 @@ func (fr *frame) enterLoop(li *loopInfo, edges []inEdge) *State {
 		vc.flushUnfold()
 		vc.assume(st.guard, t)
 	}
+	if spec != nil {
+		// proved lemmas cited at the loop head are assumed for the current values of the loop variables
+		for _, u := range spec.Uses {
+			env := fr.loopEnv(li, st)
+			if u.E.K != ECall || u.E.X.K != EIdent {
+				vc.specError(vc.con, u, fmt.Errorf("use needs lemma(args)"))
+				continue
+			}
+			lem := vc.eng.findLemma(vc.pkgPath, u.E.X.Op)
+			if lem == nil {
+				vc.specError(vc.con, u, fmt.Errorf("unknown lemma %s", u.E.X.Op))
+				continue
+			}
+			t, err := vc.lemmaInstance(lem, env, u.E.Args)
+			if err != nil {
+				vc.specError(vc.con, u, err)
+				continue
+			}
+			vc.flushUnfold()
+			vc.assume(st.guard, t)
+			vc.usedLemmas = append(vc.usedLemmas, lem.Name)
+		}
+	}
 	li.dec0 = nil
 	if spec != nil && spec.Decreases != nil {
 		if d := fr.evalLoopInt(li, spec.Decreases, st); d != nil {
